@@ -204,9 +204,11 @@ theorem schedule_Unet2d_eq :
     sched_Unet2d_plain_zero_filled = Sched.blocks (schedUnet2d) 0 ∧
     sched_Unet2d_norm_sense = Sched.blocks (schedUnet2d) 0 ∧
     sched_Unet2d_norm_sense_skip = Sched.blocks (schedUnet2d) 0 ∧
-    sched_Unet2d_norm_zero_filled = Sched.blocks (schedUnet2d) 0 := by decide
+    sched_Unet2d_norm_zero_filled = Sched.blocks (schedUnet2d) 0 ∧
+    sched_Unet2d_norm_sense_dropout = Sched.blocks (schedUnet2d) 0 := by decide
 
 theorem schedule_EndToEndVarNet_eq :
+    sched_EndToEndVarNet_dropout = Sched.blocks (schedSingle 2 2) 2 ∧
     sched_EndToEndVarNet = Sched.blocks (schedSingle 2 2) 2 := by decide
 
 theorem schedule_RIM_eq :
@@ -248,6 +250,7 @@ theorem schedule_JointICNet_eq :
     sched_JointICNet_normunet = Sched.blocks (schedJointIC) 2 := by decide
 
 theorem schedule_MultiDomainNet_eq :
+    sched_MultiDomainNet_std_dropout = Sched.blocks (schedMultiDomain true) 0 ∧
     sched_MultiDomainNet_std = Sched.blocks (schedMultiDomain true) 0 ∧
     sched_MultiDomainNet_nostd = Sched.blocks (schedMultiDomain false) 0 := by decide
 
